@@ -315,6 +315,23 @@ def run(model, col, tier):
         if ob.rule in ("R09.2", "R09.3"):
             ob.rule = "R04.9"
             col.obligations.append(ob)
+    # the CAST arm converts vectors and matrices component by component: the guard that switches to the element type holds for both kinds
+    from ..kindflow import make_fold as _mkf
+
+    cast_arm = vm.arm("CAST")
+    elem_ifs = [n for st_ in cast_arm.body for n in ast.walk(st_) if isinstance(n, ast.If)
+                and any(isinstance(s_, ast.Assign) and isinstance(s_.value, ast.Attribute) and s_.value.attr in ("ElementType", "ComponentType") for s_ in n.body)]
+    okk = {}
+    for kind_, truth in (("vector", {"IsVector": True, "IsMatrix": False, "IsScalar": False}), ("matrix", {"IsVector": False, "IsMatrix": True, "IsScalar": False})):
+        def atom_k(t_, truth=truth):
+            if isinstance(t_, ast.Call) and isinstance(t_.func, ast.Attribute) and t_.func.attr in truth and not t_.args:
+                return truth[t_.func.attr]
+            return None
+
+        okk[kind_] = any(_mkf(atom_k)(n.test) is True for n in elem_ifs)
+    mapped = any(isinstance(c, ast.Call) and last_attr(c) == "__CastValue" for st_ in cast_arm.body for c in ast.walk(st_))
+    col.check(bool(elem_ifs) and all(okk.values()) and mapped, "R04.9", f"{VM}::__Execute CAST arm element-wise", "vector and matrix targets are converted with their element type, component by component",
+              f"the switch to the element type is not taken for {[k for k, v in okk.items() if not v]} targets ({[' '.join(unparse(n.test).split()) for n in elem_ifs]}): casting such a value fails or converts the list itself", VM, cast_arm.case)
     # ---------------- R04.8 ------------------------------------------------------
     s = " ".join(unparse(ast.Module(body=sh.body, type_ignores=[])).split())
     reads_type = "instruction.Type" in s
